@@ -13,7 +13,7 @@ import math
 from vf import specfun as S
 from vf import specfun_j as J
 from vf.specfun import args, real_in, complex_in, near, integer, half_integer, choice
-from vf.specfun_j import (Cell, cell, real_p, around, near_c, near_p, near_any, cplx, polar, uniform, ints, const,
+from vf.specfun_j import (capped, Cell, cell, real_p, around, near_c, near_p, near_any, cplx, polar, uniform, ints, const,
                           args_p, dy, fl)
 from vf.catalog import R, C, I, raw_rand, canon
 
@@ -162,16 +162,16 @@ TABLE = {
         Cell('neg-real', args(real_in(-3, 7, 1))),
         Cell('neg-real-large', args(real_in(7, 11, 1))),
         cell('near-trivial-zero', near_any([-2, -4, -6, -8, -20, -50, -100], pk=lambda p: (4, p + 8))),
-        cell('near-pole', near_p(1, lambda p: (3, wpz(p) // 2 - 3))),
-        cell('near-pole-switch', near_p(1, lambda p: (wpz(p) // 2 - 2, wpz(p) // 2 + 3))),
-        cell('near-pole-closest', near_p(1, lambda p: (wpz(p) // 2 + 4, 2 * p + 60))),
+        cell('near-pole', near_p(1, capped(lambda p: (3, wpz(p) // 2 - 3)))),
+        cell('near-pole-switch', near_p(1, capped(lambda p: (wpz(p) // 2 - 2, wpz(p) // 2 + 3)))),
+        cell('near-pole-closest', near_p(1, capped(lambda p: (wpz(p) // 2 + 4, 2 * p + 60)))),
         Cell('critical-line', args(crit_line(-3, 5))),
         cell('critical-strip', strip(-3, 5)),
         cell('critical-line-near-zero', near_zetazero),
         cell('off-line-near-zero', near_zetazero_off),
         Cell('complex', args(complex_in(-3, 4))),
         Cell('complex-left-reflection', args(lambda r, b: C(raw_rand(r, b, -3, 6, 1), raw_rand(r, b, -3, 5)))),
-        cell('complex-near-pole', near_p(1, lambda p: (3, 2 * p + 50), cplx=(-300, -3)), n=(20, 150)),
+        cell('complex-near-pole', near_p(1, capped(lambda p: (3, 2 * p + 50)), cplx=lambda p: (-max(4, p - 2), -3)), n=(20, 150)),
         cell('complex-|s|-around-prec', lambda r, b, p: polar(0.7 * p, 1.4 * p, -1.5, 1.5)(r, b, p), cost=2),
         cell('strip-|Im|-around-prec', lambda r, b, p: C(fl(r.uniform(0, 1), 20), fl(r.uniform(0.8, 1.25) * p * r.choice([-1, 1]), 30)), cost=2),
         cell('strip-Euler-Maclaurin', lambda r, b, p: C(fl(r.uniform(-1, 3), 20), fl(r.uniform(1.3, 20) * p, 30)), cost=3),
@@ -205,10 +205,10 @@ TABLE = {
         Cell('negative-rational-a', rat_args(lambda r, b: R(fl(r.uniform(1.1, 12), 30)), neg=True), fn=_hurw_q, cost=2, pgen=True),
         Cell('negative-a-s<1', args(lambda r, b: R(fl(r.uniform(-6, 0.9), 30)), real_in(-2, 4, 1)), fn=_hurw, cost=2),
         cell('a-near-nonpos-int', lambda r, b: R(fl(r.uniform(1.1, 8), 30)),
-             near_any([0, -1, -2, -5], pk=lambda p: (4, max(4, p // 2 - 4))), fn=_hurw, cost=2),
+             near_any([0, -1, -2, -5], pk=capped(lambda p: (4, max(4, p // 2 - 4)))), fn=_hurw, cost=2),
         Cell('complex-a', args(real_in(-1, 2, 0), lambda r, b: C(raw_rand(r, b, -2, 1, 0), raw_rand(r, b, -3, 1))), fn=_hurw, cost=2),
         Cell('complex-s-complex-a', args(complex_in(-2, 2), lambda r, b: C(raw_rand(r, b, -2, 1, 0), raw_rand(r, b, -3, 1))), fn=_hurw, cost=2),
-        cell('s-near-1', near_p(1, lambda p: (3, p + 10)), real_in(-2, 4, 0), fn=_hurw, cost=2),
+        cell('s-near-1', near_p(1, capped(lambda p: (3, p + 10))), real_in(-2, 4, 0), fn=_hurw, cost=2),
         Cell('tiny-value-large-a', args(real_in(1, 4, 0), real_in(6, 20, 0)), fn=_hurw, cost=2, oracle=_hurw_raised),
         Cell('large-a-s<1', args(lambda r, b: R(fl(r.uniform(-3, 0.9), 30)), real_in(6, 20, 0)), fn=_hurw, cost=2),
         cell('strip-large-im-real-a', lambda r, b, p: C(fl(r.uniform(0, 1), 20), fl(r.uniform(0.5, 3) * p, 30)),
@@ -276,7 +276,7 @@ TABLE = {
         cell('int-s-real>1-cut', POLY_S_INT, uniform(1.001, 60.0)),
         cell('int-s-cut-above', POLY_S_INT, cplx(uniform(1.05, 30.0), real_p(lambda p: (-p - 10, -4), 0)), cost=2),
         cell('int-s-cut-below', POLY_S_INT, cplx(uniform(1.05, 30.0), real_p(lambda p: (-p - 10, -4), 1)), cost=2),
-        cell('int-s-near-1', POLY_S_INT, near_p(1, lambda p: (3, p + 10)), cost=2),
+        cell('int-s-near-1', POLY_S_INT, near_p(1, capped(lambda p: (3, p + 10))), cost=2),
         cell('int-s-real-neg-z', POLY_S_INT, uniform(-300.0, -0.76), cost=2),
         Cell('s=2-dilog-real', args(const(I(2)), real_in(-4, 8))),
         Cell('s=2-dilog-complex', args(const(I(2)), complex_in(-4, 6))),
@@ -353,7 +353,7 @@ TABLE = {
         Cell('real>1', args(lambda r, b: R(fl(r.uniform(1.05, 40), max(8, min(b, 53))))), cost=3),
         Cell('int', args(integer(2, 80)), cost=3),
         cell('real-around-prec', lambda r, b, p: R(fl(p * r.uniform(0.7, 1.4), 30)), cost=3),
-        cell('near-1', near_p(1, lambda p: (3, 30)), cost=3),
+        cell('near-1', near_p(1, capped(lambda p: (3, 30))), cost=3),
         Cell('real-0.5..1', args(lambda r, b: R(fl(r.uniform(0.52, 0.98), 30))), cost=3),
         Cell('complex', args(lambda r, b: C(raw_rand(r, b, 0, 4, 0), raw_rand(r, b, -3, 4))), cost=3),
     ],
